@@ -236,6 +236,31 @@ func sortedArchs[V any](m map[string]V) []string {
 	return ks
 }
 
+// galUniverse: every package of every repository of the scenario for one architecture (apk name), as Corr.C09.cand
+func galUniverse(sc scenario, a string) string {
+	var cs []string
+	for _, p := range sc.Pkgs {
+		on := false
+		for _, pa := range p.Archs {
+			on = on || pa == a
+		}
+		if !on {
+			continue
+		}
+		prov := p.Provides
+		if o, ok := p.ProvidesOn[a]; ok {
+			prov = o
+		}
+		pin := ""
+		if p.Edge {
+			pin = "edge"
+		}
+		cs = append(cs, fmt.Sprintf("{| k_name := %s; k_version := %s; k_provides := %s; k_deps := %s; k_pinned := %s; k_dq := false |}",
+			gal.Str(p.Name), gal.Str(p.Version), gal.StrList(prov), gal.StrList(p.Deps), gal.Str(pin)))
+	}
+	return gal.List(cs)
+}
+
 // one API case: resolution, lock (several runs), re-resolution of every lock
 type apiDesc struct {
 	Scenario   scenario          `json:"scenario"`
@@ -317,27 +342,7 @@ func apiCase(w *gal.Writer, wd *world, class string, lockRuns int) {
 	}
 	var uit []string
 	for _, a := range sc.Archs {
-		var cs []string
-		for _, p := range sc.Pkgs {
-			on := false
-			for _, pa := range p.Archs {
-				on = on || pa == a
-			}
-			if !on {
-				continue
-			}
-			prov := p.Provides
-			if o, ok := p.ProvidesOn[a]; ok {
-				prov = o
-			}
-			pin := ""
-			if p.Edge {
-				pin = "edge"
-			}
-			cs = append(cs, fmt.Sprintf("{| k_name := %s; k_version := %s; k_provides := %s; k_deps := %s; k_pinned := %s; k_dq := false |}",
-				gal.Str(p.Name), gal.Str(p.Version), gal.StrList(prov), gal.StrList(p.Deps), gal.Str(pin)))
-		}
-		uit = append(uit, gal.Pair(gal.Str(types.ParseArchitecture(a).String()), gal.List(cs)))
+		uit = append(uit, gal.Pair(gal.Str(types.ParseArchitecture(a).String()), galUniverse(sc, a)))
 	}
 	term := fmt.Sprintf("{| e_originals := %s; e_resolution := %s; e_lock_runs := %s; e_relock := %s; e_index_relock := %s; e_universe := %s |}",
 		gal.StrList(sc.World), res, gal.List(runs), relock, indexRe, gal.List(uit))
@@ -683,8 +688,8 @@ func cliCase(wl, wb *gal.Writer, wd *world, class string, buildArchs []string, a
 				listed = append(listed, opkg{Name: p.Name, Version: p.Version})
 			}
 		}
-		bterm := fmt.Sprintf("(CBuild {| b_arch := %s; b_repo_changed := %s; b_listed := %s; b_locked_ok := %s; b_plain_ok := %s; b_locked_installed := %s; b_plain_installed := %s; b_locked_manifest := %s; b_plain_manifest := %s |})",
-			gal.Str(a), gal.Bool(after != nil), galNV(listed), gal.Bool(e1 == nil), gal.Bool(e2 == nil), galNV(i1), galNV(i2), gal.Str(m1), gal.Str(m2))
+		bterm := fmt.Sprintf("(CBuild {| b_arch := %s; b_repo_changed := %s; b_world := %s; b_universe := %s; b_listed := %s; b_locked_ok := %s; b_plain_ok := %s; b_locked_installed := %s; b_plain_installed := %s; b_locked_manifest := %s; b_plain_manifest := %s |})",
+			gal.Str(a), gal.Bool(after != nil), gal.StrList(sc.World), galUniverse(sc, a), galNV(listed), gal.Bool(e1 == nil), gal.Bool(e2 == nil), galNV(i1), galNV(i2), gal.Str(m1), gal.Str(m2))
 		wb.Add(gal.Case{Term: bterm, Class: class + "/build", Trivial: false, Key: bterm, Desc: d})
 		os.Remove(lockedTar)
 		os.Remove(plainTar)
@@ -784,6 +789,19 @@ func corpusScenarios() []scenario {
 		{Name: "entry-disqualifies-member-providing-its-name-unversioned", Archs: both(), World: []string{"a", "b"}, Pkgs: []pspec{
 			{Name: "a", Version: "1.0-r0", Archs: both(), Deps: []string{"q"}}, {Name: "b", Version: "1.0-r0", Archs: both(), Deps: []string{"p"}},
 			{Name: "p", Version: "1.0-r0", Archs: both(), Provides: []string{"q"}}, {Name: "q", Version: "2.0-r0", Archs: both()}}},
+		// C09-F8: every package of the tagged repository is requested with its pin, so every entry of the lock carries it; but the
+		// dependency walk that reaches a (tagged) FIRST in the lock starts from the unrequested, unpinned 0x, whose walk allows no pin:
+		// a's dependency on the virtual v, provided by the tagged p1, finds no candidate. In the origin the walk of "a@edge" came first.
+		{Name: "pinned-virtual-provider-reached-through-unpinned-member", Archs: both(), World: []string{"a@edge", "p1@edge", "r"}, Pkgs: []pspec{
+			{Name: "r", Version: "1.0-r0", Archs: both(), Deps: []string{"0x"}}, {Name: "0x", Version: "1.0-r0", Archs: both(), Deps: []string{"a"}},
+			{Name: "a", Version: "1.0-r0", Archs: both(), Edge: true, Deps: []string{"v"}},
+			{Name: "p1", Version: "1.0-r0", Archs: both(), Edge: true, Provides: []string{"v=1"}}}},
+		// C09-F5, its mechanism: the request [x] resolves to z0 w0 x (of x's dependencies "v" is expanded before "w0"), the lock list
+		// [w0=.. x=.. z0=..] to w0 z0 x (w0 sorts before x and is expanded first): `apko lock` lists the first order, `apko build`
+		// without a lock file installs in the second (it resolves the LOCKED configuration) - same packages, another image
+		{Name: "install-order-of-lock-list-differs", Archs: both(), World: []string{"x"}, Pkgs: []pspec{
+			{Name: "x", Version: "1.0-r0", Archs: both(), Deps: []string{"v", "w0"}}, {Name: "w0", Version: "1.0-r0", Archs: both()},
+			{Name: "z0", Version: "1.0-r0", Archs: both(), Provides: []string{"v=1"}}}},
 		{Name: "dependency-missing-on-one-arch", Archs: both(), World: []string{"a"}, Pkgs: []pspec{
 			{Name: "a", Version: "1.0-r0", Archs: both(), Deps: []string{"b"}}, {Name: "b", Version: "1.0-r0", Archs: []string{X}}}},
 		// the repositories and the key come through build options: the locked configurations are re-resolved on their own, so they must
@@ -913,6 +931,45 @@ func genScenario(r *gal.Rand, i int) scenario {
 		}
 	}
 	sc.ViaOptions = i%5 == 3 // drawn from the index, so the random stream of the other fields stays what it was
+	// session 4: more kinds of conflict entries - versioned ("!n3<2.0", "!n1=1.0-r0"), against a virtual name ("!v"), against a name
+	// nobody has ("!zz") -, a tagged package that provides a virtual another package needs (C09-F8's shape), and a tagged package
+	// requested with its tag next to an untagged dependent. Drawn from a stream of their own (seeded by the scenario index), so the
+	// scenarios of earlier sessions keep their other fields.
+	r2 := gal.NewRand(uint64(1000003*i + 17))
+	for k := range sc.Pkgs {
+		if !r2.Chance(1, 7) {
+			continue
+		}
+		var c string
+		switch r2.Intn(4) {
+		case 0:
+			c = "!" + gal.Pick(r2, names) + gal.Pick(r2, []string{"<2.0", ">1.0-r0", "=1.0-r0", "~1.1", ">=2.0-r0"})
+		case 1:
+			c = "!" + gal.Pick(r2, virtNames)
+		case 2:
+			c = "!zz"
+		default:
+			c = "!" + gal.Pick(r2, names)
+		}
+		if c != "!"+sc.Pkgs[k].Name {
+			sc.Pkgs[k].Deps = append(sc.Pkgs[k].Deps, c)
+		}
+	}
+	if hasEdge && r2.Chance(1, 3) {
+		// e2 lives in the tagged repository and provides the virtual "ev"; e3 (untagged) needs "ev"; both may be requested
+		sc.Pkgs = append(sc.Pkgs, pspec{Name: "e2", Version: "1.0-r0", Archs: archs, Edge: true, Provides: []string{"ev=1"}},
+			pspec{Name: "e3", Version: "1.0-r0", Archs: archs, Deps: []string{"ev"}, Edge: r2.Chance(1, 2)})
+		if r2.Chance(2, 3) {
+			sc.World = append(sc.World, "e2@edge")
+		}
+		if r2.Chance(2, 3) {
+			w := "e3"
+			if sc.Pkgs[len(sc.Pkgs)-1].Edge {
+				w += "@edge"
+			}
+			sc.World = append(sc.World, w)
+		}
+	}
 	return sc
 }
 
@@ -971,6 +1028,7 @@ func cliStage(dir string, seed uint64, tier string) error {
 		"basic-dep": {X}, "virtual-by-provided-name": {Y}, "pinned-with-dependency-in-tagged-repo": {X}, "diamond": {X},
 		"newer-version-on-one-arch": {X},
 		"compatible-architectures-x86": {X, "x86"}, "compatible-architectures-arm": {Y}, "riscv64-only": {Zr},
+		"install-order-of-lock-list-differs": {X},
 	}
 	for _, sc := range cs {
 		sc := sc
